@@ -741,11 +741,11 @@ class Interp(object):
 
     def call_func(self, f, args, kw):
         q = f.qualname
-        if q != self.under_verification or self.stack_has(f):
+        if q != self.under_verification or (self.stack_has(f) and f.node.name != '__setattr__'):
             c = self.prog.contracts.get(q)
             if c is not None and (self.inline_only is None or q not in self.inline_only):
                 return c(self, f, args, kw)
-        if self.stack_has(f):
+        if self.stack_has(f) and not (f.node.name == '__setattr__' and len(self.stack) < self.MAX_DEPTH):
             if self.recursion_hook is not None:
                 return self.recursion_hook(self, f, args, kw)
             raise Unsupported('recursive call of %s' % q)
